@@ -120,7 +120,8 @@ def solve_scipy(
     obj_fn = cache["obj_fn"]
     grad_fn = cache["grad_fn"]
     scipy_constraints = cache["scipy_constraints"]
-    bounds = cache["bounds"]
+    # Bounds are read on every solve: Variable.lb / ub may change between solves
+    bounds = _compute_bounds(variables)
 
     def objective(x: np.ndarray) -> float:
         return float(obj_fn(x))
@@ -334,10 +335,20 @@ def _compute_initial_point(
     return x0
 
 
+def _compute_bounds(variables: list) -> list[tuple[float, float]]:
+    """Current (lb, ub) of every variable in solver order (inf for unbounded)."""
+    bounds = []
+    for v in variables:
+        lb = v.lb if v.lb is not None else -np.inf
+        ub = v.ub if v.ub is not None else np.inf
+        bounds.append((lb, ub))
+    return bounds
+
+
 def _build_solver_cache(problem: Problem, variables: list) -> dict[str, Any]:
     """Build and cache compiled callables for the solver.
 
-    This function compiles the objective, gradient, constraints, and bounds
+    This function compiles the objective, gradient and constraints
     once and stores them in a cache dict. Subsequent solve() calls reuse
     these compiled callables, avoiding recompilation overhead.
 
@@ -364,14 +375,6 @@ def _build_solver_cache(problem: Problem, variables: list) -> dict[str, Any]:
 
     cache["obj_fn"] = compile_expression(obj_expr, variables)
     cache["grad_fn"] = compile_jacobian([obj_expr], variables)
-
-    # Build bounds
-    bounds = []
-    for v in variables:
-        lb = v.lb if v.lb is not None else -np.inf
-        ub = v.ub if v.ub is not None else np.inf
-        bounds.append((lb, ub))
-    cache["bounds"] = bounds
 
     # Build constraints for SciPy
     scipy_constraints = []
